@@ -66,6 +66,12 @@ CLAIMED += [
          text="HB.tla (release sequences, acquire joins, epochs) is carried along every interleaving of every scenario (MCSyncHB, invariant NoRace, orderings of the "
               "micro-op table) and rebuilt by TLC from the orderings the code actually passes on every recorded execution (TraceHB): Meta::clear, user accesses, "
               "atomic accesses of node words and the unmapping of the memory are checked against earlier conflicting accesses; teardown scenarios give every thread its own arena value."),
+    dict(property_id="C06", engine="crash", technique="TLA+ spec (MCCrash = ArenaSync + Crash in every state + reopen + probe) model-checked with TLC (safety + liveness) + crash-point enumeration on the real file (snapshot before every atomic step, reopened and probed in a child) + TLC trace validation",
+         design_ref="6 C06", note=SYNC_NOTE + " Crash = process death with the page cache intact; probe non-termination = child killed by a 1 s alarm.",
+         text="Crash is an action enabled in every reachable state of every scenario interleaving; after it only the probe runs on the zeroed-above-cursor memory: "
+              "TLC checks cursor bounds, pre-crash live ranges intact and disjoint from probe allocations, and probe termination. On the real code the arena file is "
+              "copied before every step of TLC-generated schedules, reopened with map_mut in a forked child and probed; TraceCrash judges; model counterexamples "
+              "(schedule + crash index) are replayed first."),
 ]
 
 NOT_YET = "check not built yet in this round (construction in progress; see DESIGN.md section 11)"
@@ -102,6 +108,8 @@ def main():
         "engines": [
             {"name": "sync", "path": "lib/eng_sync.py", "serves_properties": ["C02", "C07", "C12"],
              "kind_free_text": "ArenaSync.tla (one action per atomic access of sync.rs, byte-exact memory) + MCSync; harness/src/conc.rs controlled scheduler; TraceSyncProp / TraceSyncImpl"},
+            {"name": "crash", "path": "lib/check_crash.py", "serves_properties": ["C06"],
+             "kind_free_text": "MCCrash.tla over ArenaSync; harness conc (snapshots) + probe (forked reopen under alarm); TraceCrash"},
             {"name": "seq", "path": "lib/eng_seq.py", "serves_properties": sorted(c["property_id"] for c in CLAIMED if c["engine"] == "seq"),
              "kind_free_text": "ArenaSeq.tla (implementation-level sequential spec) + ArenaProps.tla (property predicates) model-checked by TLC (MCSeq); "
                                "harness/src/seq.rs replays TLC-generated and random drivers on real sync/unsync arenas; TraceSeqProp (verdict) and TraceSeqImpl (drift) validate the traces"},
